@@ -1,6 +1,6 @@
 """C10 configuration for ./check (see checks/propcfg.py for the keys)."""
 CFG = {
-    "modules": ["VaxisModel.Props.C10", "VaxisModel.Props.C10Shutdown", "VaxisModel.Props.C10Use", "VaxisModel.Props.C10Inventory", "VaxisModel.Witness.F13", "VaxisModel.Witness.F33", "VaxisModel.Witness.F53", "VaxisModel.Witness.F210"],
+    "modules": ["VaxisModel.Props.C10", "VaxisModel.Props.C10Shutdown", "VaxisModel.Props.C10Use", "VaxisModel.Props.C10Inventory", "VaxisModel.Props.C10Spinner", "VaxisModel.Witness.F13", "VaxisModel.Witness.F33", "VaxisModel.Witness.F53", "VaxisModel.Witness.F210"],
     "extractors": ["C10"],
     "drivers": ["C10"],
     "stateful": True,
@@ -48,8 +48,10 @@ CFG = {
                   "of Parser.WaitClose / Close / emit / run's tail, PostEvent / PostEventBlocking and the input goroutine (waitclose_drains, "
                   "input_loop_leaves_on_closed_channel, blocking_post_selects_quit). Assumed, not guaranteed by the code: Resume only after the "
                   "application's Suspend returned and not after Close. lock_order is computed on a flattened per-function event list (a return in "
-                  "a branch resets the held set; callees by simple name). The escape timer (C08) and the spinner loop "
-                  "are not components of the shutdown LTS (the timer's emit is released by the same drain as the parser's).",
+                  "a branch resets the held set; callees by simple name). The escape timer (C08) is not a component of "
+                  "the shutdown LTS (the timer's emit is released by the same drain as the parser's). The spinner's loop is its own component (SpSys, "
+                  "Props/C10Spinner: one live goroutine, ticks never block, Stop ends every spinner goroutine, its posts are posts of the queue LTS); "
+                  "nothing in Close stops a spinner (the widget's own Start/Stop life cycle).",
     "technique": "Lean 4 invariants over labelled transition systems; go/ast extractor (lock sites, channel capacities); seeded stress harness, -race child",
     "timeout": 3000,
 }
